@@ -79,7 +79,7 @@ theorem has_setFlag (sc : SChan) (k : Str) (g : Flags → Flags) (x : Str) :
 
 /-! ### `ChannelState.doMode`, one change, by class -/
 
-theorem tracked_eq : Gen.trackedModes = ['o', 'v', 'h', 'b', 'e', 'q'] := tracked_table_ok.1
+theorem tracked_eq : Gen.trackedModes = ['o', 'v', 'h', 'b', 'e', 'q', 'I'] := tracked_table_ok.1
 
 theorem modeStep_set (ch : Chan) (a : Bool) (c : Char) (w : Nat) (v : Option Str) (hc : c ∈ Gen.trackedModes)
     (hw : aget Gen.modeSets c = some w) :
@@ -94,12 +94,12 @@ theorem modeStep_ignored (ch : Chan) (a : Bool) (c : Char) (v : Option Str) (hc 
 theorem modeStep_plain (ch : Chan) (a : Bool) (c : Char) (v : Option Str) (hc : c ∉ Gen.trackedModes) :
     ch.modeStep (sign a, c, v) =
       some { ch with modes := if a then aset ch.modes c v else adel ch.modes c } := by
-  have h1 : c ∉ Gen.setModeForbidden := by rw [tracked_table_ok.2.2.2.2.2.2.2.1]; exact hc
-  have h2 : c ∉ Gen.unsetModeForbidden := by rw [tracked_table_ok.2.2.2.2.2.2.2.2.1]; exact hc
+  have h1 : c ∉ Gen.setModeForbidden := fun h => hc (tracked_table_ok.2.2.2.2.2.2.2.2.1 c h)
+  have h2 : c ∉ Gen.unsetModeForbidden := fun h => hc (tracked_table_ok.2.2.2.2.2.2.2.2.2.1 c h)
   cases a <;> simp [Chan.modeStep, hc, h1, h2, sign]
 
-theorem class_not_tracked : ∀ c ∈ keyModes ++ limitModes, c ∉ ['o', 'v', 'h', 'b', 'e', 'q'] := by decide
-theorem tracked_in_class : ∀ c ∈ ['o', 'v', 'h', 'b', 'e', 'q'], c ∈ prefixModes ++ listModes ++ keyModes ++ limitModes := by decide
+theorem class_not_tracked : ∀ c ∈ keyModes ++ limitModes, c ∉ ['o', 'v', 'h', 'b', 'e', 'q', 'I'] := by decide
+theorem tracked_in_class : ∀ c ∈ ['o', 'v', 'h', 'b', 'e', 'q', 'I'], c ∈ prefixModes ++ listModes ++ keyModes ++ limitModes := by decide
 
 theorem flag_not_tracked {c : Char} (h : isFlagMode c = true) : c ∉ Gen.trackedModes := by
   rw [tracked_eq]
@@ -178,6 +178,7 @@ theorem mem_tracked_v : 'v' ∈ Gen.trackedModes := by rw [tracked_eq]; decide
 theorem mem_tracked_b : 'b' ∈ Gen.trackedModes := by rw [tracked_eq]; decide
 theorem mem_tracked_e : 'e' ∈ Gen.trackedModes := by rw [tracked_eq]; decide
 theorem mem_tracked_q : 'q' ∈ Gen.trackedModes := by rw [tracked_eq]; decide
+theorem mem_tracked_I : 'I' ∈ Gen.trackedModes := by rw [tracked_eq]; decide
 
 /-- one accepted change: the bot's `doMode` step succeeds and keeps the channel matched -/
 theorem applyMode_sim {sc sc' : SChan} {ch : Chan} {c : MChange} (hok : c.ok) (ha : sc.applyMode c = some sc')
@@ -254,7 +255,8 @@ theorem applyMode_sim {sc sc' : SChan} {ch : Chan} {c : MChange} (hok : c.ok) (h
               exact ⟨_, rfl, hm, fun _ => rfl⟩
             · rw [h, modeStep_ignored ch c.add 'q' (some a) mem_tracked_q tracked_table_ok.2.2.2.2.2.2.1]
               exact ⟨_, rfl, hm, fun _ => rfl⟩
-            · exact absurd h hok.1
+            · rw [h, modeStep_ignored ch c.add 'I' (some a) mem_tracked_I tracked_table_ok.2.2.2.2.2.2.2.1]
+              exact ⟨_, rfl, hm, fun _ => rfl⟩
     · split at ha
       · -- k
         rename_i hk
@@ -407,7 +409,7 @@ theorem coupled_mode {s : Srv} {b : Bot} (hw : SrvWF s) (hc : Coupled s b) (src 
             simp only [Bot.chanOrNew, Bot.chan, hcw.key, hbc, Option.getD_some]
           have hsh := applyModes_shaped cs sc
           have hsep := separateModes_render (applyModes sc cs).2 (fun c hc => (hsh c hc).1)
-            (fun c hc a ha => (hok c (hsh c hc).2).2 a ha)
+            (fun c hc a ha => (hok c (hsh c hc).2) a ha)
           obtain ⟨ch', h1, h2, h3⟩ := applyModes_sim cs sc ch hok hrel0.2
           simp only [Bot.stateCmd, cmdOf_MODE, Bot.doMode, (chanOK_of_valid hcw.name).isChan, ↓reduceIte, hchan,
             Chan.doMode, hsep, h1]
